@@ -26,6 +26,14 @@ RunReasons(e) ==
         \cup (IF \E i \in 1..Len(e.verified) : e.verified[i] # (e.key # "none") THEN {"verified_flag"} ELSE {})
         \cup (IF allHonest /\ (e.exit # 0 \/ e.printed # e.nreq) THEN {"honest_rejected"} ELSE {})
         \cup (IF allHonest /\ e.exit = 0 /\ ~e.times_ok THEN {"wrong_time_printed"} ELSE {})
+        \* the verbose view (stderr, "verified=Yes|No") of a run that had one is held to the same rules as the primary view
+        \* (JSON objects or bare times on stdout): nothing for an unauthentic response, the right flag, the right time
+        \cup (IF fb # 0 /\ e.vprinted >= fb THEN {"time_printed_for_unauthentic_response"} ELSE {})
+        \cup (IF \E i \in 1..Len(e.vverified) : e.vverified[i] # (e.key # "none") THEN {"verified_flag"} ELSE {})
+        \cup (IF allHonest /\ e.exit = 0 /\ ~e.vtimes_ok THEN {"wrong_time_printed"} ELSE {})
+        \cup (IF allHonest /\ e.out_mode # 0 /\ e.vprinted # e.nreq THEN {"honest_rejected"} ELSE {})
+        \* (outside C01/C03, recorded only: the -o / -O files of a run that ended well hold exactly the datagrams exchanged)
+        \cup (IF e.files = "differ" THEN {"io_files_differ"} ELSE {})
         \cup (IF Len(e.served) # e.nreq THEN {"client_sent_fewer_requests"} ELSE {})
         \* every request the client generates is one an honest server is obliged to answer (Request.tla: right size, framing,
         \* version list, nonce length, SRV of the pinned key if one was given)
